@@ -35,10 +35,9 @@ structure C07_Contracts (tr : Trace) (endT : Int) : Prop where
   k5 : K5 Cfg.paper tr endT = true
   k6 : K6 Cfg.paper tr = true
   k7 : K7 Cfg.paper tr endT = true
-  /-- refresh (C10): a held PTR is re-queried at 75 % and 85 % of its TTL -/
+  /-- refresh (C10): a held PTR is re-queried around 75 % and 85 % of its TTL (or, by a browser that starts when the record
+  is already older, in its third and fourth start-up questions) -/
   k3b : K3b Cfg.paper tr endT = true
-  /-- freshness: on a browsing host the PTR of a registered instance of its type is unexpired at the end of the window -/
-  kf : KF Cfg.paper tr endT = true
 
 /-- The property, parametrised by what is known about a run: for every observation window `[0, endT]` of a run described by
 `runs`, ending at least `settle` after the last API call, every browser on a host that was not closed reports exactly the
@@ -58,11 +57,11 @@ or 3rd announcement, or came up later and then the browser's 3rd and 4th start-u
 delivered answer (directly, or through the heard question that suppressed them) — one loss kills at most one.
 
 **Stability over long horizons.**  `held` is "the last PTR processed was positive"; what a browser reports follows the cache
-*including expiry* (`K5`: `heldFresh → live → heldGrace`).  That the PTR of a registered instance never expires on a browsing
-host is the hypothesis `kf` (`KF`, monitored on every run).  It is the consequence of the refresh contract `k3b` (a held PTR is
-re-queried — not listed as a known answer, being stale — at 75 % and again at 85 % of its TTL) together with K4 and K7 by the very
-argument of `query_chain` (two exchanges ≥ 112 s apart, one loss): **that derivation `K3b ∧ K4 ∧ K7 → KF` is not proved here**;
-`k3b` is monitored but unused by the proof.  For windows shorter than the 1125 s TTL floor after the last PTR `KF` holds trivially. -/
+*including expiry* (`K5`: `heldFresh → live → heldGrace`).  That the PTR of a registered instance never expires on a browsing host
+(`KF`) is no longer a hypothesis: it is derived (`unexpired_of_refresh`, `C07_fresh`) from the refresh contract `k3b` with K4 and
+K7 by the argument of `query_chain` — two exchanges at least 5 s apart (≥ 112 s in the 75 % / 85 % case), one loss.  Since `endT`
+is arbitrary, convergence holds at every later instant while nothing changes.  Still `_partial` because K1–K6 and K3b are
+hypotheses about the hosts (monitored on every simulated run), not theorems about a composed host model. -/
 theorem C07_convergence_partial : C07_convergence C07_Contracts := by
   intro tr endT hc hsettle tb b hb hopen s
   have hwf := wf_of hc.wf
@@ -74,7 +73,7 @@ theorem C07_convergence_partial : C07_convergence C07_Contracts := by
     | true =>
       obtain ⟨β, t1, hA⟩ := announced_of_registered hwf hc.k1 hc.k2 hc.k7 hsettle hreg
       have hh := held_of_announced hwf hc.k3 hc.k4 hc.k7 hsettle hA hb hopen hty
-      have hu := kf_of hc.kf hb hopen (held_mem_dlvSvcs hh) hty hreg
+      have hu := unexpired_of_refresh hwf hc.k3 hc.k3b hc.k4 hc.k7 hsettle hA hb hopen hty
       exact live_of_heldFresh hwf.le_end hc.k5 hb hopen (by unfold heldFresh; rw [hh, hu]; rfl) hty
     | false =>
       exact not_live_of_not_held hwf.le_end hc.k5 hb hopen
@@ -82,6 +81,29 @@ theorem C07_convergence_partial : C07_convergence C07_Contracts := by
   · have hty' : (s.ty == b.ty) = false := by simpa using hty
     rw [hty', Bool.and_false]
     exact not_live_of_not_held hwf.le_end hc.k5 hb hopen (Or.inr hty)
+
+/-- **Freshness (the monitor `KF` can never fail when the contracts hold).**  On every never-closed browsing host the last PTR
+of every registered instance of the browsed type is unexpired at the end of any window ≥ lastChange + settle: derived from K3b
+(refresh questions), K4 (they are answered), K7 (one loss) and the announcement argument — not assumed. -/
+theorem C07_fresh (tr : Trace) (endT : Int) (hc : C07_Contracts tr endT) (hsettle : lastChange tr + C07_settle ≤ endT) :
+    KF Cfg.paper tr endT = true := by
+  have hwf := wf_of hc.wf
+  unfold C07_settle at hsettle
+  unfold KF
+  rw [List.all_eq_true]
+  rintro ⟨tb, b⟩ hb
+  cases hopen : neverClosed tr b.host with
+  | false => rfl
+  | true =>
+    simp only [Bool.not_true, Bool.false_or, List.all_eq_true]
+    intro s _
+    cases hcond : (s.ty == b.ty && registered Cfg.paper tr s) with
+    | false => rfl
+    | true =>
+      simp only [Bool.not_true, Bool.false_or]
+      simp only [Bool.and_eq_true, beq_iff_eq] at hcond
+      obtain ⟨β, t1, hA⟩ := announced_of_registered hwf hc.k1 hc.k2 hc.k7 hsettle hcond.2
+      exact unexpired_of_refresh hwf hc.k3 hc.k3b hc.k4 hc.k7 hsettle hA hb hopen hcond.1
 
 /-- **Removed direction, for every host** (no browser needed; uses only K2, K6, K7): after the settling time no host that
 stays up still holds a PTR of a service that is not registered — no resurrection (D5/D6 are violations of K6). -/
@@ -118,13 +140,13 @@ theorem C07_single_loss (tr : Trace) (endT : Int) (h7 : K7 Cfg.paper tr endT = t
 theorem C07_convergence_gen (tr : Trace) (endT : Int)
     (hc : WF Cfg.gen tr endT = true ∧ K1 Cfg.gen tr endT = true ∧ K2 Cfg.gen tr endT = true ∧ K3 Cfg.gen tr endT = true
       ∧ K4 Cfg.gen tr endT = true ∧ K5 Cfg.gen tr endT = true ∧ K6 Cfg.gen tr = true ∧ K7 Cfg.gen tr endT = true
-      ∧ K3b Cfg.gen tr endT = true ∧ KF Cfg.gen tr endT = true)
+      ∧ K3b Cfg.gen tr endT = true)
     (hsettle : lastChange tr + C07_settle ≤ endT) (tb : Int) (b : Br) (hb : (tb, b) ∈ browses tr)
     (hopen : neverClosed tr b.host = true) (s : Svc) :
     convergedFor Cfg.gen tr b s = true := by
   rw [C07_constants] at hc ⊢
-  obtain ⟨h0, h1, h2, h3, h4, h5, h6, h7, h8, h9⟩ := hc
-  have := C07_convergence_partial tr endT ⟨h0, h1, h2, h3, h4, h5, h6, h7, h8, h9⟩ hsettle tb b hb hopen s
+  obtain ⟨h0, h1, h2, h3, h4, h5, h6, h7, h8⟩ := hc
+  have := C07_convergence_partial tr endT ⟨h0, h1, h2, h3, h4, h5, h6, h7, h8⟩ hsettle tb b hb hopen s
   unfold convergedFor
   rw [this]
   simp
@@ -159,7 +181,7 @@ def tr : Trace :=
 
 /-- every contract holds on it (the third announcement of `u` is the one lost delivery) -/
 theorem contracts : C07_Contracts tr 31000 :=
-  ⟨by decide, by decide, by decide, by decide, by decide, by decide, by decide, by decide, by decide, by decide⟩
+  ⟨by decide, by decide, by decide, by decide, by decide, by decide, by decide, by decide, by decide⟩
 
 example : K6full tr = true ∧ K5added tr = true := by decide
 example : (missing Cfg.paper tr 31000).length = 1 := by decide
@@ -190,11 +212,54 @@ def tr : Trace :=
    ⟨16050, .send 1 7 none (q [s] false)⟩, ⟨16050, .dlv 7 1 0 true (q [s] false)⟩, ⟨16050, .dlv 7 1 1 true (q [s] false)⟩]
 
 theorem contracts : C07_Contracts tr 20000 :=
-  ⟨by decide, by decide, by decide, by decide, by decide, by decide, by decide, by decide, by decide, by decide⟩
+  ⟨by decide, by decide, by decide, by decide, by decide, by decide, by decide, by decide, by decide⟩
 
 example : lastChange tr + C07_settle ≤ 20000 := by decide
 example : upBefore tr b.host (350 + 225) = false := by decide   -- the browser's host missed every announcement
 example : live tr b s = true ∧ registered Cfg.paper tr s = true ∧ K6full tr = true ∧ K5added tr = true := by decide
 end C07ex2
+
+/-! A third run exercises the refresh path (K3b) over a long horizon: the browser on host 1 learns `s` from the announcements
+(last one processed at 800 ms, TTL 4500 s).  At 75 % of its life (3 375 800 ms) it asks again without listing `s`; the owner's
+answer to host 1 is the one lost delivery, so the record is still un-refreshed 25 s later and K3b's first window is *demanded*
+(and met by that question).  At 85 % (3 825 800 ms) it asks again, the answer arrives at 3 825 950 ms.  The window ends at
+4 600 000 ms — after the original record would have expired (4 500 800 ms): the instance is still reported. -/
+namespace C07ex3
+def s : Svc := ⟨0, 0, 0⟩
+def b : Br := ⟨1, 0, 0⟩
+def ann : List Item := [.ptr s 4500 true]
+def q (k : List Svc) (qu : Bool) : List Item := [.query 0 k qu]
+def tr : Trace :=
+  [⟨0, .up 0⟩, ⟨0, .up 1⟩, ⟨0, .reg s⟩, ⟨100, .browse b⟩,
+   ⟨150, .send 1 0 none (q [] true)⟩, ⟨150, .dlv 0 1 1 true (q [] true)⟩, ⟨160, .dlv 0 1 0 true (q [] true)⟩,
+   ⟨350, .send 0 1 none ann⟩, ⟨350, .dlv 1 0 0 true ann⟩, ⟨360, .dlv 1 0 1 true ann⟩, ⟨360, .added b s⟩,
+   ⟨575, .send 0 2 none ann⟩, ⟨575, .dlv 2 0 0 true ann⟩, ⟨600, .dlv 2 0 1 true ann⟩,
+   ⟨800, .send 0 3 none ann⟩, ⟨800, .dlv 3 0 0 true ann⟩, ⟨800, .dlv 3 0 1 true ann⟩,
+   ⟨1150, .send 1 4 none (q [s] false)⟩, ⟨1150, .dlv 4 1 0 true (q [s] false)⟩, ⟨1150, .dlv 4 1 1 true (q [s] false)⟩,
+   ⟨5150, .send 1 5 none (q [s] false)⟩, ⟨5150, .dlv 5 1 0 true (q [s] false)⟩, ⟨5150, .dlv 5 1 1 true (q [s] false)⟩,
+   ⟨14150, .send 1 6 none (q [s] false)⟩, ⟨14150, .dlv 6 1 0 true (q [s] false)⟩, ⟨14150, .dlv 6 1 1 true (q [s] false)⟩,
+   ⟨30000, .obs⟩,
+   ⟨3375800, .send 1 7 none (q [] false)⟩, ⟨3375800, .dlv 7 1 1 true (q [] false)⟩, ⟨3375850, .dlv 7 1 0 true (q [] false)⟩,
+   ⟨3375900, .send 0 8 none ann⟩, ⟨3375900, .dlv 8 0 0 true ann⟩,
+   ⟨3600000, .obs⟩,
+   ⟨3825800, .send 1 9 none (q [] false)⟩, ⟨3825800, .dlv 9 1 1 true (q [] false)⟩, ⟨3825850, .dlv 9 1 0 true (q [] false)⟩,
+   ⟨3825900, .send 0 10 none ann⟩, ⟨3825900, .dlv 10 0 0 true ann⟩, ⟨3825950, .dlv 10 0 1 true ann⟩,
+   ⟨4550000, .obs⟩]
+
+theorem contracts : C07_Contracts tr 4600000 :=
+  ⟨by decide, by decide, by decide, by decide, by decide, by decide, by decide, by decide, by decide⟩
+
+example : lastChange tr + C07_settle ≤ 4600000 := by decide
+/-- the lost answer is the only missing delivery, and K3b's first window for the record processed at 800 ms is demanded:
+the record is un-refreshed at the end of that window, which lies inside the observation -/
+example : (missing Cfg.paper tr 4600000).length = 1
+    ∧ (refreshWindow Cfg.paper 800 4500 100 false).2 ≤ 4600000
+    ∧ noPtrBetween tr 1 s 800 (refreshWindow Cfg.paper 800 4500 100 false).2 = true
+    ∧ refreshOpp tr 1 0 s (refreshWindow Cfg.paper 800 4500 100 false).1 (refreshWindow Cfg.paper 800 4500 100 false).2 = true := by
+  decide
+/-- past the expiry of the original record (800 + 4 500 000 < 4 600 000) the instance is still held, fresh and reported -/
+example : (800 : Int) + effTtl Cfg.paper 4500 < 4600000 ∧ heldFresh Cfg.paper tr 1 s 4600000 = true ∧ live tr b s = true
+    ∧ registered Cfg.paper tr s = true ∧ KF Cfg.paper tr 4600000 = true := by decide
+end C07ex3
 
 end Zc
